@@ -92,7 +92,43 @@ func H_C13_laws() {
 // H_C13_codecs: string codecs on symbolic strings.
 func H_C13_codecs() {
 	s := nondetString(nondetChoice(vparam("n", 3) + 1))
-	switch nondetChoice(4) {
+	switch nondetChoice(7) {
+	case 4:
+		// explode | implode on every string, implode | explode on every scalar value
+		xs, ok := funcExplode(s).([]any)
+		vassert(ok, "explode yields an array")
+		if ok {
+			vassert(funcImplode(xs) == refSanitize(s), "implode of explode is the string (invalid bytes as U+FFFD)")
+		}
+		vreach("explode")
+	case 5:
+		r, r2 := nondetInt(), nondetInt()
+		vassume(0 <= r)
+		vassume(r <= 0x10FFFF)
+		vassume(r < 0xD800 || r > 0xDFFF)
+		vassume(0 <= r2)
+		vassume(r2 <= 0x7FF)
+		t, ok := funcImplode([]any{r, r2, r}).(string)
+		vassert(ok, "implode of code points yields a string")
+		if ok {
+			vassert(refValidUTF8(t), "implode yields valid UTF-8")
+			back, ok := funcExplode(t).([]any)
+			vassert(ok && len(back) == 3, "explode of implode has one number per code point")
+			if ok && len(back) == 3 {
+				vassert(back[0] == r && back[1] == r2 && back[2] == r, "explode of implode is the list of code points")
+			}
+		}
+		vreach("implode")
+	case 6:
+		// split(sep) | join(sep) for a non-empty separator
+		sep := nondetString(1 + nondetChoice(2))
+		parts := funcSplit(s, sep)
+		if arr, ok := parts.([]any); ok {
+			vassert(funcJoin(arr, sep) == s, "join(sep) of split(sep) is the string")
+		} else {
+			vassert(false, "split yields an array")
+		}
+		vreach("split")
 	case 0:
 		e, ok := funcToBase64(s).(string)
 		vassert(ok, "@base64 yields a string")
